@@ -179,6 +179,11 @@ def discOk (a : Ast) (k : DiscKind) (d : Nat) : Bool :=
 def withinLimit (lim : Option Nat) (k : Nat) : Bool :=
   k < 2^32 && (match lim with | some m => k ≤ m | none => true)
 
+/-- the limit of a counted declarator: `none` when its constant does not resolve -/
+def limitOf (a : Ast) : Option ArraySize → Option (Option Nat)
+  | none => some none
+  | some sz => (boundValue a sz).map some
+
 mutual
 /-- `x` is a value of a declarator position `t`, `t[n]`, `t<max>` (decidable) -/
 def hasType (a : Ast) (at_ : ArrayType) (x : XVal) : Bool :=
@@ -186,28 +191,31 @@ def hasType (a : Ast) (at_ : ArrayType) (x : XVal) : Bool :=
   | .none t => hasTypeBasic a t x
   | .fixed t sz =>
     (match boundValue a sz with
-     | some n =>
-       (match t, x with
-        | .opaque, .fixedOpaque bs => bs.length == n
-        | .string, _ => false
-        | .opaque, _ => false
-        | t, .fixedArr xs => xs.len == n && allHaveType a t xs
-        | _, _ => false)
+     | some n => fixedHasType a n t x
      | none => false)
   | .variable t max =>
-    let lim : Option (Option Nat) := match max with
-      | none => some none
-      | some sz => (boundValue a sz).map some
-    (match lim with
-     | none => false
-     | some lim =>
-       (match t, x with
-        | .opaque, .varOpaque bs => withinLimit lim bs.length
-        | .string, .str bs => withinLimit lim bs.length && utf8Valid bs
-        | .opaque, _ => false
-        | .string, _ => false
-        | t, .varArr xs => withinLimit lim xs.len && allHaveType a t xs
-        | _, _ => false))
+    (match limitOf a max with
+     | some lim => varHasType a lim t x
+     | none => false)
+termination_by (sizeOf x, 4)
+/-- `x` is `t[n]`: exactly `n` opaque bytes, or `n` elements -/
+def fixedHasType (a : Ast) (n : Nat) (t : BasicType) (x : XVal) : Bool :=
+  match t, x with
+  | .opaque, .fixedOpaque bs => bs.length == n
+  | .string, _ => false
+  | .opaque, _ => false
+  | t, .fixedArr xs => xs.len == n && allHaveType a t xs
+  | _, _ => false
+termination_by (sizeOf x, 3)
+/-- `x` is `t<lim>`: at most `lim` opaque bytes / UTF-8 bytes / elements -/
+def varHasType (a : Ast) (lim : Option Nat) (t : BasicType) (x : XVal) : Bool :=
+  match t, x with
+  | .opaque, .varOpaque bs => withinLimit lim bs.length
+  | .string, .str bs => withinLimit lim bs.length && utf8Valid bs
+  | .opaque, _ => false
+  | .string, _ => false
+  | t, .varArr xs => withinLimit lim xs.len && allHaveType a t xs
+  | _, _ => false
 termination_by (sizeOf x, 3)
 def hasTypeBasic (a : Ast) (t : BasicType) (x : XVal) : Bool :=
   match t, x with
@@ -258,16 +266,18 @@ def allHaveType (a : Ast) (t : BasicType) (xs : XVals) : Bool :=
   | .nil => true
   | .cons v vs => hasTypeBasic a t v && allHaveType a t vs
 termination_by (sizeOf xs, 0)
+def fieldHasType (a : Ast) (f : StructField) (v : XVal) : Bool :=
+  if f.isOptional then
+    (match v with
+     | .optNone => true
+     | .optSome x => hasTypeBasic a f.fieldValue.unwrapArray x
+     | _ => false)
+  else hasType a f.fieldValue v
+termination_by (sizeOf v, 5)
 def fieldsHaveType (a : Ast) (fs : List StructField) (xs : XVals) : Bool :=
   match fs, xs with
   | [], .nil => true
-  | f :: fs, .cons v vs =>
-    (if f.isOptional then
-       (match v with
-        | .optNone => true
-        | .optSome x => hasTypeBasic a f.fieldValue.unwrapArray x
-        | _ => false)
-     else hasType a f.fieldValue v) && fieldsHaveType a fs vs
+  | f :: fs, .cons v vs => fieldHasType a f v && fieldsHaveType a fs vs
   | _, _ => false
 termination_by (sizeOf xs, 0)
 end
@@ -341,15 +351,16 @@ def reprAll (a : Ast) (t : BasicType) (off : Nat) (xs : XVals) : Vals :=
   | .nil => .nil
   | .cons v vs => .cons (reprBasic a t off v) (reprAll a t (off + v.enc.length) vs)
 termination_by (sizeOf xs, 0)
+def reprField (a : Ast) (f : StructField) (off : Nat) (v : XVal) : Val :=
+  if f.isOptional then
+    (match v with
+     | .optSome x => .some (reprBasic a f.fieldValue.unwrapArray (off + 4) x)
+     | _ => .none)
+  else repr a f.fieldValue off v
+termination_by (sizeOf v, 4)
 def reprFields (a : Ast) (fs : List StructField) (off : Nat) (xs : XVals) : Vals :=
   match fs, xs with
-  | f :: fs, .cons v vs =>
-    .cons (if f.isOptional then
-             (match v with
-              | .optSome x => .some (reprBasic a f.fieldValue.unwrapArray (off + 4) x)
-              | _ => .none)
-           else repr a f.fieldValue off v)
-      (reprFields a fs (off + v.enc.length) vs)
+  | f :: fs, .cons v vs => .cons (reprField a f off v) (reprFields a fs (off + v.enc.length) vs)
   | _, _ => .nil
 termination_by (sizeOf xs, 0)
 end
